@@ -480,6 +480,10 @@ def correspond_flags(res, drv, case):
         if [int(t) for t in mfl.split()] != fl_:
             res.disagree(what + ": flags after the call", fl_, mfl)
             return
+        if ops[step].startswith("dec ") and (out[1:2] == ("raised",) or "raised" in tk[:3] or any(t.startswith("err:") for t in tk[:3])):
+            # decoding a vector that is not a solution: whether the decoder raises (assertion) or returns something is not part of the
+            # property; the flags after the call were compared above
+            continue
         if out[1:2] == ("raised",):
             # (the model and the code must both raise; which exception is not part of the property)
             if not ("raised" in tk[:3] or any(t.startswith("err:") for t in tk[:3])):
